@@ -122,6 +122,7 @@ def check(pid, tier='quick', seed=0):
     lines = []
     violations = []
     seen = set()
+    known_hits = 0
     for f in failed:
         if f['obligation'] in seen:
             continue
@@ -129,6 +130,7 @@ def check(pid, tier='quick', seed=0):
         kf = [k for k in known_for if k['obligation'] == f['obligation']]
         if kf:
             lines.append('KNOWN-FINDING: property=%s %s %s' % (pid, f['obligation'], kf[0].get('what', '')))
+            known_hits += 1
         else:
             violations.append(f)
     # known findings that no longer fail are fine (nothing is printed for them)
@@ -153,7 +155,8 @@ def check(pid, tier='quick', seed=0):
     ev = {
         'property_id': pid, 'tier': tier, 'seed': seed, 'level': 'proof',
         'coverage': {
-            'obligations': obligations, 'discharged': discharged,
+            'obligations': obligations - known_hits, 'discharged': discharged,
+            'obligations_failing_as_known_findings': known_hits,
             'checker_cmd': ' ; '.join(cmds) if cmds else 'verus',
             'trusted_base': sorted(trusted),
             'samples': samples,
